@@ -59,12 +59,19 @@ def instructionFromVal (cfg : Val) (key : String) (original : Val) : Except (Str
             | .ok fa => .ok { groups := gs, success := su, failure := fa, key, original }
   | _ => .error ("pypyr.errors.ContextError", "~" ++ key ++ " needs a child key 'groups'")
 
+/-- `Context.get_formatted(key)`: a KeyNotInContextError is re-raised with a longer text. -/
+def fmtAtKey (s : St) (v : Val) : Except Exc Val :=
+  match fmtV s v with
+  | .error x => if x.name == "pypyr.errors.KeyNotInContextError"
+      then .error ⟨x.name, "~Unable to format … because " ++ x.msg⟩ else .error x
+  | .ok r => .ok r
+
 /-- `cof.control_of_flow_instruction` for `pypyr.steps.call` / `pypyr.steps.jump`. -/
 def cofStep (key : String) (isCall : Bool) : Body := fun s =>
   match assertKeyHasValue s key ("pypyr.steps." ++ key) with
   | .error (n, m) => raiseNew s n m
   | .ok original =>
-    match fmtV s original with
+    match fmtAtKey s original with
     | .error x => raiseExc s x
     | .ok cfg =>
       match instructionFromVal cfg key original with
@@ -137,13 +144,14 @@ def switchStep : Body := fun s =>
 def setFold (s : St) : List (Val × Val) → St × Res
   | [] => (s, .ok)
   | (k, v) :: rest =>
-    match fmtV s k with
+    -- `context[fmt(k)] = fmt(v)`: Python evaluates the right-hand side first
+    match fmtV s v with
     | .error x => raiseExc s x
-    | .ok (.str ks) =>
-      match fmtV s v with
+    | .ok fv =>
+      match fmtV s k with
       | .error x => raiseExc s x
-      | .ok fv => setFold { s with ctx := Ctx.set s.ctx ks fv } rest
-    | .ok _ => raiseNew s "OutOfDomain" "context keys must be strings"
+      | .ok (.str ks) => setFold { s with ctx := Ctx.set s.ctx ks fv } rest
+      | .ok _ => raiseNew s "OutOfDomain" "context keys must be strings"
 
 def setStep : Body := fun s =>
   match assertKeyHasValue s "set" "pypyr.steps.set" with
